@@ -29,7 +29,7 @@ RULE = (
     "other operations in between; distinct by history."
 )
 ASSUMPTIONS = ["the baseline process runs without contracts; equality therefore also shows that the harness-side monitors do not perturb the library"]
-FLOORS = {"quick": {"histories": 28, "seeded_generations_compared": 400, "fingerprints_compared": 3000, "distinct_nontrivial": 14, "respelled_twins_in_pool": 20, "fresh_process_order_pairs": 100}, "thorough": {"histories": 500}}
+FLOORS = {"quick": {"histories": 24, "seeded_generations_compared": 400, "fingerprints_compared": 3000, "distinct_nontrivial": 14, "respelled_twins_in_pool": 20, "fresh_process_order_pairs": 100}, "thorough": {"histories": 500}}
 
 
 def plan(tier, seed):
